@@ -278,7 +278,8 @@ def _huge_in_child(entry, L):
 
     def lim():
         resource.setrlimit(resource.RLIMIT_AS, (3 << 30, 3 << 30))
-    code = ('import json,sys; sys.path[:0]=["/repo","/verif"]; from engine import replayfn; '
+    from engine.common import REPO, VERIF
+    code = (f'import json,sys; sys.path[:0]=[{REPO!r},{VERIF!r}]; from engine import replayfn; '
             f'print("RESULT"+json.dumps(replayfn.limit_boundary({entry!r}, {L}, "huge", True)))')
     try:
         p = subprocess.run([sys.executable, '-c', code], capture_output=True, text=True, timeout=40, preexec_fn=lim,
@@ -382,6 +383,17 @@ def fs_check(check_name, root, params, slots):
     from engine import fscheck
     res = getattr(fscheck, check_name)(root, *params, slots=slots)
     return res['viol']
+
+
+def capture_marker(mode, pattern, marked_pattern, k, name, kw):
+    """C08 capture clause: [translate(pattern) with `<` `>` around the body of capture group k+1 fully matches `name`,
+    the real matcher of `marked_pattern` (same markers around extended group k+1) accepts `name`]."""
+    import re
+    from props.c08 import mark_regex
+    m = _mod(mode)
+    inc, _exc = m.translate(pattern, **kw)
+    t2 = mark_regex(inc[0], k)
+    return [bool(name) and re.fullmatch(t2, name) is not None, matcher_accepts(mode, marked_pattern, name, kw)]
 
 
 def c10_outcome(text, flags):
